@@ -119,7 +119,11 @@ func (t *Tape) capv() int {
 func (t *Tape) Read(p []byte) (int, error) {
 	idx := t.NReads
 	t.NReads++
-	if mr := t.MaxReads; (mr > 0 && idx >= mr) || idx >= 1<<22 {
+	mr := t.MaxReads
+	if mr == 0 {
+		mr = 1 << 22
+	}
+	if idx >= mr {
 		panic(CapExceeded{t.Pos})
 	}
 	n := len(p)
